@@ -724,6 +724,19 @@ pub fn anchors() -> Vec<Ty> {
     v.push(flex(zst.clone(), L::U16));
     v.push(sstruct("AZstVecTail", vec![prim(U16), fvec(Ty::Unit, L::U8)], false, false, true));
     v.push(flex(fvec(Ty::Unit, L::U8), L::U8));
+    // an item that together with its slot is larger than the offset type can express: exactly one fits (marked L::MAX)
+    v.push(flex(Ty::Array(b(prim(U8)), 255), L::U8));
+    v.push(flex(sstruct("ABig300", vec![Ty::Array(b(prim(U8)), 150), Ty::Array(b(prim(U16)), 75)], true, false, false), L::U8));
+    // more than 256 variants under a 16-bit tag (variant #256 aliases #0 when the tag is narrowed to a byte)
+    {
+        let mut vars = vec![var(Tuple, vec![Ty::Array(b(prim(U8)), 64)])];
+        for _ in 1..256 {
+            vars.push(var(Unit, vec![]));
+        }
+        vars.push(var(Tuple, vec![prim(U8)]));
+        vars.push(var(Named, vec![prim(U16), fvec(prim(U8), L::U8)]));
+        v.push(senum("AEnum258", TagTy::U16, vars, false, false, Some(1)));
+    }
     // a zero-sized field between a less aligned and a more aligned one (struct, enum variant, aligned ZST)
     v.push(sstruct("AZstMid", vec![prim(U8), Ty::Unit, prim(U32), fvec(prim(U8), L::U8)], false, false, true));
     v.push(sstruct("AZstMid2", vec![prim(U8), Ty::Array(b(prim(U64)), 0), prim(U16), Ty::FlatString(L::U8)], false, false, true));
